@@ -394,7 +394,19 @@ def natexpr(node, env):
         return f"{node.value}"
     if isinstance(node, ast.BinOp) and isinstance(node.op, (ast.Add, ast.Sub)):
         return f"({natexpr(node.left, env)} {'+' if isinstance(node.op, ast.Add) else '-'} {natexpr(node.right, env)})"
+    if isinstance(node, ast.BinOp) and isinstance(node.op, ast.Mod):
+        return f"({natexpr(node.left, env)} mod {natexpr(node.right, env)})"
     raise Untranslatable(f"integer construct {ast.unparse(node)}")
+
+
+def rangeexpr(call, env):
+    """range(b) / range(a, b) as a Gallina list of naturals"""
+    if not (isinstance(call, ast.Call) and _callname(call) == "range" and not call.keywords and len(call.args) in (1, 2)):
+        raise Untranslatable(f"range construct {ast.unparse(call)}")
+    if len(call.args) == 1:
+        return f"(seq 0 {natexpr(call.args[0], env)})"
+    a, b = natexpr(call.args[0], env), natexpr(call.args[1], env)
+    return f"(seq {a} ({b} - {a}))"
 
 
 def listexpr(node, env):
@@ -408,6 +420,119 @@ def listexpr(node, env):
             v = g.target.id
             return f"(map (fun {v} => {natexpr(node.elt, dict(env, **{v: v}))}) (seq 0 {natexpr(g.iter.args[0], env)}))"
     raise Untranslatable(f"list construct {ast.unparse(node)}")
+
+
+def listexpr2(node, env):
+    """the wider list language of the semantic tie: + , literals, list(range(..)), comprehensions over range(a[, b]) with `!=` / `==` filters"""
+    if isinstance(node, ast.BinOp) and isinstance(node.op, ast.Add):
+        return f"({listexpr2(node.left, env)} ++ {listexpr2(node.right, env)})"
+    if isinstance(node, (ast.List, ast.Tuple)):
+        return "[" + "; ".join(natexpr(e, env) for e in node.elts) + "]"
+    if isinstance(node, ast.Call) and _callname(node) == "list" and len(node.args) == 1 and not node.keywords:
+        return rangeexpr(node.args[0], env)
+    if isinstance(node, ast.Call) and _callname(node) == "range":
+        return rangeexpr(node, env)
+    if isinstance(node, ast.ListComp) and len(node.generators) == 1:
+        g = node.generators[0]
+        if isinstance(g.target, ast.Name):
+            v = g.target.id
+            env2 = dict(env, **{v: v})
+            src = rangeexpr(g.iter, env)
+            for cond in g.ifs:
+                if not (isinstance(cond, ast.Compare) and len(cond.ops) == 1 and isinstance(cond.ops[0], (ast.NotEq, ast.Eq))):
+                    raise Untranslatable(f"filter {ast.unparse(cond)}")
+                t = f"Nat.eqb {natexpr(cond.left, env2)} {natexpr(cond.comparators[0], env2)}"
+                src = f"(filter (fun {v} => {'negb (' + t + ')' if isinstance(cond.ops[0], ast.NotEq) else t}) {src})"
+            return f"(map (fun {v} => {natexpr(node.elt, env2)}) {src})"
+    raise Untranslatable(f"list construct {ast.unparse(node)}")
+
+
+def _rank_index(node, env):
+    """rank[e] -> e"""
+    if isinstance(node, ast.Subscript) and getattr(node.value, "id", "") == "rank":
+        return natexpr(node.slice, env)
+    raise Untranslatable(f"expected rank[...], found {ast.unparse(node)}")
+
+
+def tr_semantic_goal(fn):
+    """the PIECES of the axis bookkeeping of tensor_ring_als, whatever their syntactic form, checked semantically by
+    Model/Errors.v:tr_bookkeeping_ok (sound: Proofs/ErrorsTR.v:tr_bookkeeping_ok_sound) for every order 2..7 and every mode"""
+    env = {"n_dim": "N", "dim": "dim"}
+
+    def assigns(name, sub=False):
+        out = []
+        for n in ast.walk(fn):
+            if isinstance(n, ast.Assign) and len(n.targets) == 1:
+                t = n.targets[0]
+                if (not sub and getattr(t, "id", "") == name) or (sub and isinstance(t, ast.Subscript) and getattr(t.value, "id", "") == name):
+                    out.append(n)
+        return out
+    # rows of the unfolded tensor
+    unf = [a for a in assigns("tensor_unf") if isinstance(a.value, ast.Call) and _callname(a.value) == "matricize"]
+    if len(unf) != 1 or len(unf[0].value.args) != 3 or ast.unparse(unf[0].value.args[0]) != "tensor" or ast.unparse(unf[0].value.args[2]) != "[dim]":
+        raise Untranslatable("tensor_ring_als: expected one tensor_unf = matricize(tensor, <row modes>, [dim])")
+    row_modes = listexpr2(unf[0].value.args[1], env)
+    # the sub-chain: first core, then cores tensordot-ed on the right
+    sub = assigns("subchain_tensor")
+    first = [a for a in sub if isinstance(a.value, ast.Subscript) and getattr(a.value.value, "id", "") == "tr_decomp"]
+    dots = [a for a in sub if isinstance(a.value, ast.Call) and _callname(a.value) == "tensordot"]
+    trans = [a for a in sub if isinstance(a.value, ast.Call) and _callname(a.value) == "transpose"]
+    if len(first) != 1 or len(dots) != 1 or len(trans) != 1 or len(sub) != 3:
+        raise Untranslatable("tensor_ring_als: expected subchain_tensor = tr_decomp[..]; one tensordot in a loop; one transpose")
+    c0 = natexpr(first[0].value.slice, env)
+    loops = [n for n in ast.walk(fn) if isinstance(n, ast.For) and dots[0] in n.body]
+    if len(loops) != 1 or len(loops[0].body) != 1 or not isinstance(loops[0].target, ast.Name):
+        raise Untranslatable("tensor_ring_als: the tensordot is not the single statement of a for loop")
+    jv = loops[0].target.id
+    d = dots[0].value
+    kw = {k.arg: ast.unparse(k.value) for k in d.keywords}
+    if (len(d.args) != 2 or ast.unparse(d.args[0]) != "subchain_tensor" or kw != {"axes": "1"} or not isinstance(d.args[1], ast.Subscript)
+            or getattr(d.args[1].value, "id", "") != "tr_decomp"):
+        raise Untranslatable(f"tensor_ring_als: unexpected tensordot {ast.unparse(d)}")
+    chain = f"({c0} :: map (fun {jv} => {natexpr(d.args[1].slice, dict(env, **{jv: jv}))}) {rangeexpr(loops[0].iter, env)})"
+    # the permutation
+    t = trans[0].value
+    if len(t.args) != 2 or ast.unparse(t.args[0]) != "subchain_tensor":
+        raise Untranslatable(f"tensor_ring_als: unexpected transpose {ast.unparse(t)}")
+    if isinstance(t.args[1], ast.Name):
+        pa = assigns(t.args[1].id)
+        if len(pa) != 1:
+            raise Untranslatable(f"tensor_ring_als: expected one assignment to {t.args[1].id}")
+        perm = listexpr2(pa[0].value, env)
+    else:
+        perm = listexpr2(t.args[1], env)
+    # design matrix columns
+    dm = [a for a in assigns("design_mat") if isinstance(a.value, ast.Call) and _callname(a.value) == "reshape"]
+    if len(dm) != 1 or ast.unparse(dm[0].value.args[0]) != "subchain_tensor" or not isinstance(dm[0].value.args[1], ast.Tuple) or len(dm[0].value.args[1].elts) != 2:
+        raise Untranslatable("tensor_ring_als: expected design_mat = reshape(subchain_tensor, (-1, rank[..] * rank[..]))")
+    e0, e1 = dm[0].value.args[1].elts
+    if ast.unparse(e0) != "-1" or not (isinstance(e1, ast.BinOp) and isinstance(e1.op, ast.Mult)):
+        raise Untranslatable(f"tensor_ring_als: unexpected design matrix shape {ast.unparse(dm[0].value.args[1])}")
+    cols = f"[{_rank_index(e1.left, env)}; {_rank_index(e1.right, env)}]"
+    # the core update
+    upd = [a for a in assigns("tr_decomp", sub=True) if ast.unparse(a.targets[0].slice) == "dim"]
+    if len(upd) != 1 or not (isinstance(upd[0].value, ast.Call) and _callname(upd[0].value) == "transpose" and len(upd[0].value.args) == 2):
+        raise Untranslatable("tensor_ring_als: expected tr_decomp[dim] = transpose(reshape(sol, (...)), [...])")
+    rs_, pm_ = upd[0].value.args
+    if not (isinstance(rs_, ast.Call) and _callname(rs_) == "reshape" and ast.unparse(rs_.args[0]) == "sol" and isinstance(rs_.args[1], ast.Tuple) and len(rs_.args[1].elts) == 3
+            and ast.unparse(rs_.args[1].elts[2]) == "shape[dim]"):
+        raise Untranslatable(f"tensor_ring_als: unexpected reshape of the solution {ast.unparse(rs_)}")
+    sol_rows = f"[{_rank_index(rs_.args[1].elts[0], env)}; {_rank_index(rs_.args[1].elts[1], env)}]"
+    sol_perm = listexpr2(pm_, env)
+    src = ast.unparse(fn)
+    need = ["tl.norm(tl.matmul(design_mat, sol) - tensor_unf)"]
+    missing = [x for x in need if x not in src]
+    if missing:
+        raise Untranslatable(f"tensor_ring_als: the reported residual is no longer the residual of the last sub-problem: {missing}")
+    return "tr_semantic", f"""
+Definition gen_tr_ok (N dim : nat) : bool := tr_bookkeeping_ok N dim {chain} {row_modes} {perm} {cols} {sol_rows} {sol_perm}.
+Lemma tie_tr_semantic : forallb (fun N => forallb (fun dim => gen_tr_ok N dim) (seq 0 N)) (seq 2 6) = true.
+Proof. vm_compute. reflexivity. Qed.
+Lemma tie_tr_semantic_props : forall N dim, In N (seq 2 6) -> In dim (seq 0 N) -> gen_tr_ok N dim = true.
+Proof.
+  intros N dim HN Hd. pose proof tie_tr_semantic as H. rewrite forallb_forall in H. specialize (H N HN). rewrite forallb_forall in H. exact (H dim Hd).
+Qed.
+"""
 
 
 def tr_idx_goal(fn):
@@ -462,6 +587,7 @@ def ties(repo):
         ("loop_order_non_negative_parafac", lambda: cfg_goal("non_negative_parafac", _fn(nn, "non_negative_parafac"), True)),
         ("loop_order_non_negative_parafac_hals", lambda: cfg_goal("non_negative_parafac_hals", _fn(nn, "non_negative_parafac_hals"), True)),
         ("tr_idx", lambda: tr_idx_goal(_fn(tr, "tensor_ring_als"))),
+        ("tr_semantic", lambda: tr_semantic_goal(_fn(tr, "tensor_ring_als"))),
         ("loop_order_constrained_parafac", lambda: cfg_goal("constrained_parafac", _fn(cc, "constrained_parafac"), False)),
     ]
     out = []
@@ -476,7 +602,11 @@ def ties(repo):
 
 def run_ast_tie(chk):
     from harness import common as C
-    res = {"proved": [], "skipped": []}
+    res = {"proved": [], "skipped": [], "optional_not_proved": []}
+    # optional goals: UNIVERSAL forms of a tie whose mandatory form is semantic but bounded (tr_idx: syntactic equality with the model's
+    # tr_idx for every order; tr_semantic: the bookkeeping checker on the regenerated pieces for orders 2..7).  A consistent refactoring
+    # of the bookkeeping loses the universal form (recorded) without breaking the tie
+    OPTIONAL = {"tr_idx"}
     chk.cov["ast_tie"] = res
     chk.checker_cmds.append("coqc on goals generated from the Python ast of _cp.py / _nn_cp.py / _constrained_cp.py / _tucker.py / _parafac2.py "
                             "(expression under each shortcut's sqrt, iprod pairing, MTTKRP weights, line-search test) re-proving the C06 identities")
@@ -497,6 +627,9 @@ def run_ast_tie(chk):
 
     good = [(n_, t_) for n_, t_, _ in items if t_ is not None]
     for n_, t_, why in items:
+        if t_ is None and n_ in OPTIONAL:
+            res["optional_not_proved"].append(n_)
+            continue
         if t_ is None:
             chk.broken.append({"what": f"ast tie: {n_}: the source can no longer be translated (model and code may have diverged)", "detail": why})
     if good:
@@ -513,6 +646,8 @@ def run_ast_tie(chk):
                     res["proved"].append(n_)
                 elif rc1 in (124, 137, -9, -15):
                     res["skipped"].append(n_)
+                elif n_ in OPTIONAL:
+                    res["optional_not_proved"].append(n_)
                 else:
                     chk.broken.append({"what": f"ast tie: {n_}: the expression of the current source no longer satisfies the C06 identity of Model/Errors.v "
                                                "(generated goal does not prove)", "detail": {"goal_file": open(fn1).read()[-1800:], "coqc": out1}})
